@@ -7,11 +7,17 @@
 #include "d_string.h"
 void vh_sink(char c);
 void vh_sink_unsupported(void);
+#ifdef DS_SINK_PTR
+void vh_sink_ptr(const char *s);      /* told about every string handed over by pointer (taint oracles) */
+#define PTR(s) vh_sink_ptr(s)
+#else
+#define PTR(s) ((void) 0)
+#endif
 DString *d_string_new(const char *s) { DString *d = malloc(sizeof(DString)); if (d) { d->str = malloc(4); if (d->str) d->str[0] = 0; d->currentStringLength = 0; d->currentStringBufferSize = 4; } if (s) for (size_t i = 0; s[i]; i++) vh_sink(s[i]); return d; }
 char *d_string_free(DString *d, bool f) { if (!d) return 0; char *r = d->str; if (f) { free(d->str); r = 0; } free(d); return r; }
 void d_string_append_c(DString *d, char c) { if (d && c) vh_sink(c); }
-void d_string_append(DString *d, const char *s) { if (d && s) for (size_t i = 0; s[i]; i++) vh_sink(s[i]); }
-void d_string_append_c_array(DString *d, const char *s, size_t n) { if (d && s) { if (n == (size_t) -1) d_string_append(d, s); else for (size_t i = 0; i < n; i++) vh_sink(s[i]); } }
+void d_string_append(DString *d, const char *s) { if (d && s) PTR(s); if (d && s) for (size_t i = 0; s[i]; i++) vh_sink(s[i]); }
+void d_string_append_c_array(DString *d, const char *s, size_t n) { if (d && s) { PTR(s); if (n == (size_t) -1) d_string_append(d, s); else for (size_t i = 0; i < n; i++) vh_sink(s[i]); } }
 void d_string_insert(DString *d, size_t pos, const char *s) { vh_sink_unsupported(); }
 void d_string_prepend(DString *d, const char *s) { vh_sink_unsupported(); }
 void d_string_insert_c(DString *d, size_t pos, char c) { vh_sink_unsupported(); }
@@ -25,7 +31,7 @@ void d_string_append_printf(DString *d, const char *f, ...) {
 		i++;
 		if (f[i] == '%') { vh_sink('%'); continue; }
 		while (f[i] && ((f[i] >= '0' && f[i] <= '9') || f[i] == '.' || f[i] == '-' || f[i] == 'l' || f[i] == 'z')) i++;
-		if (f[i] == 's') { const char *s = va_arg(ap, const char *); if (s) for (size_t j = 0; s[j]; j++) vh_sink(s[j]); }
+		if (f[i] == 's') { const char *s = va_arg(ap, const char *); if (s) PTR(s); if (s) for (size_t j = 0; s[j]; j++) vh_sink(s[j]); }
 		else if (f[i] == 'd' || f[i] == 'i' || f[i] == 'u') { (void) va_arg(ap, int); vh_sink('1'); }
 		else if (f[i] == 'f') { (void) va_arg(ap, double); vh_sink('0'); }
 		else if (f[i] == 'c') { char c = (char) va_arg(ap, int); if (c) vh_sink(c); }
